@@ -370,6 +370,7 @@ def pupil_arrays(b, sname, S, seg=None, offcentre=True):
 # --------------------------------------------------------------------------- C07
 
 class ViewsHooks(Hooks):
+    prefix = 'C07'
     def __init__(self):
         self.pre = None
         # lentil documents one-element fields as broadcastable scalars ("infinite constants"); a wavefront that has
@@ -702,6 +703,7 @@ class ViewsScenario(OpticsBase):
 # --------------------------------------------------------------------------- C04
 
 class TiltHooks(Hooks):
+    prefix = 'C04'
     def after(self, it, i, ev, out):
         fn = ev['fn']
         tag = ev.get('t', {})
